@@ -50,6 +50,11 @@ pub mod slab {
         #[verifier::external_body] pub fn insert(&mut self, val: T) -> (r: usize)
             ensures !old(self)@.dom().contains(r), final(self)@ == old(self)@.insert(r, val), r == old(self).next_key(),
         { unimplemented!() }
+        /// Rule R27: stand-in for the indexed assignment `slab[key] = val` (IndexMut; the real one panics on a vacant key)
+        #[verifier::external_body] pub fn set(&mut self, key: usize, val: T)
+            requires old(self)@.dom().contains(key),
+            ensures final(self)@ == old(self)@.insert(key, val), final(self).next_key() == old(self).next_key(),
+        { unimplemented!() }
         #[verifier::external_body] pub fn len(&self) -> (r: usize) ensures r == self@.dom().len(), { unimplemented!() }
         #[verifier::external_body] pub fn is_empty(&self) -> (r: bool) ensures r == (self@.dom().len() == 0), { unimplemented!() }
         #[verifier::external_body] pub fn contains(&self, key: usize) -> (r: bool) ensures r == self@.dom().contains(key), { unimplemented!() }
